@@ -6,8 +6,8 @@ import vlib
 
 META = {
     "category": "model_checking",
-    "text": "(Round 7: the two-message read operations are part of the specification - MsgPair.tla: Message::is_answer both ways, QuestionSection ==, first_question / sole_question compared, RequestMessage / RequestMessageMulti::new + is_answer, MessageBuilder::start_answer / start_error from a hostile message by five targets and the reply held against either message, copy_records from a hostile source into a reply started for the other message, the transfer interpreter fed both - as total functions of a PAIR of octet strings; TLC checks their laws over ~10k enumerated pairs (every prefix, one-field mutants, hostile x hostile) which are replayed by every octets route, and the recorder logs pair events (a message of the run and a partner cut off / mutated / started by the library / unrelated) that Trace_MsgReader judges by PairProj.) (Round 5: the typed views of a record section - limit_to, limit_to_in, into_records over 15 record-data types, their clones, unwrap and next_section - are a view component of the MsgReader cursor machine (actions Limit/Unwrap, cursors opened on any section, invariants ViewIdempotent/ViewFilters/DataErrorGoesOn) and a `typed` component of the projection, walked directly, through a clone and through clone-per-step; records of classes CH/HS/NONE/ANY and RDATA errors inside sections are part of the enumerated messages and the recorder; header bits, records read at an offset, the OPT record and converted/flattened/rebuilt records are observed by every public route.) (Limit-shape names at the 253..257-octet boundary in every section and records of 23 types with hostile inner structure are part of the enumerated messages and of the recorder.) Wire.tla transcribes the wire format (header, questions, records with the RDLENGTH-must-fit rule, RFC 1035 4.1.4 name compression, skip vs parse, the RDATA layouts that embed names, OPT TLVs) and the read-side results derived from it; MsgReader.tla is the section-cursor machine of the read API. TLC checks termination of name parsing (measure), validity of every returned name, skip/parse position agreement, the CNAME bound and fuse/position/idempotence invariants over all call orders. Every enumerated message (header shapes x boundary chunks, ~55k quick) and every call order up to 4-5 calls on 7 hostile/well-formed messages plus 3 mixed-class ones (by two routes: Message<&[u8]> with copied cursors, &Message<[u8]> via AsRef with cloned cursors) is replayed into Message/QuestionSection/RecordSection (full read battery, twice, plus XfrResponseInterpreter and Label::iter_slice under a watchdog); recorded batteries on library-built, mutated and random messages are validated by TLC.",
-    "note": "Pairs: messages of at most 160 octets in traces; a reply started on a compressing target is compared ignoring letter case; what copy_records copies is compared by counts (read back), not record by record. Trusted: TLC, the transcription in Wire.tla, the harness executor. RDATA of types other than NS/CNAME/PTR/MX/SOA/OPT/A/AAAA/private-use is opaque to the spec: for those only 'value or error, no panic, same twice' is checked on the implementation side. Error classes are not compared. Messages above the cap (160 octets in traces) only get the totality clause. Reads outside the buffer that do not panic and unsafe blocks are not judged. Four open known findings: canonical_name u16 overflow at ANCOUNT=0xFFFF, Label::iter_slice self-pointer hang and pointer-loop unbounded iteration, XFR interpreter unreachable!().",
+    "text": "(Round 8: the QUERY methods of parsed record data that take an argument are part of the specification - WireQuery.tla: a type bitmap value is a sequence of windows, RtypeBitmap::contains(t) is t in TypesOf(value) (declaratively and as the octet walk, TLC checks both agree), iter / IntoIterator / is_empty, OwnerHash / Nsec3Salt compared with arguments of other lengths; TLC enumerates first windows 0/1/255 x EVERY length 1..32 x sparse/dense/mixed octets, two and three windows, the empty and seven malformed bitmaps, in NSEC and NSEC3 records, and each case queries all 256 types of every present block - including the 8 types just past a window last octet - and of absent neighbour blocks, through three routes, twice; a panic inside one query is an element of the observation.) (Round 7: the two-message read operations are part of the specification - MsgPair.tla: Message::is_answer both ways, QuestionSection ==, first_question / sole_question compared, RequestMessage / RequestMessageMulti::new + is_answer, MessageBuilder::start_answer / start_error from a hostile message by five targets and the reply held against either message, copy_records from a hostile source into a reply started for the other message, the transfer interpreter fed both - as total functions of a PAIR of octet strings; TLC checks their laws over ~10k enumerated pairs (every prefix, one-field mutants, hostile x hostile) which are replayed by every octets route, and the recorder logs pair events (a message of the run and a partner cut off / mutated / started by the library / unrelated) that Trace_MsgReader judges by PairProj.) (Round 5: the typed views of a record section - limit_to, limit_to_in, into_records over 15 record-data types, their clones, unwrap and next_section - are a view component of the MsgReader cursor machine (actions Limit/Unwrap, cursors opened on any section, invariants ViewIdempotent/ViewFilters/DataErrorGoesOn) and a `typed` component of the projection, walked directly, through a clone and through clone-per-step; records of classes CH/HS/NONE/ANY and RDATA errors inside sections are part of the enumerated messages and the recorder; header bits, records read at an offset, the OPT record and converted/flattened/rebuilt records are observed by every public route.) (Limit-shape names at the 253..257-octet boundary in every section and records of 23 types with hostile inner structure are part of the enumerated messages and of the recorder.) Wire.tla transcribes the wire format (header, questions, records with the RDLENGTH-must-fit rule, RFC 1035 4.1.4 name compression, skip vs parse, the RDATA layouts that embed names, OPT TLVs) and the read-side results derived from it; MsgReader.tla is the section-cursor machine of the read API. TLC checks termination of name parsing (measure), validity of every returned name, skip/parse position agreement, the CNAME bound and fuse/position/idempotence invariants over all call orders. Every enumerated message (header shapes x boundary chunks, ~55k quick) and every call order up to 4-5 calls on 7 hostile/well-formed messages plus 3 mixed-class ones (by two routes: Message<&[u8]> with copied cursors, &Message<[u8]> via AsRef with cloned cursors) is replayed into Message/QuestionSection/RecordSection (full read battery, twice, plus XfrResponseInterpreter and Label::iter_slice under a watchdog); recorded batteries on library-built, mutated and random messages are validated by TLC.",
+    "note": "Queries: bitmaps with repeated or descending windows and trailing zero octets (accepted by the reader, forbidden to senders) are not enumerated; no recorder events for queries yet; SvcParams / Opt typed lookups stay with the accessor batteries of round 3-5. Pairs: messages of at most 160 octets in traces; a reply started on a compressing target is compared ignoring letter case; what copy_records copies is compared by counts (read back), not record by record. Trusted: TLC, the transcription in Wire.tla, the harness executor. RDATA of types other than NS/CNAME/PTR/MX/SOA/OPT/A/AAAA/private-use is opaque to the spec: for those only 'value or error, no panic, same twice' is checked on the implementation side. Error classes are not compared. Messages above the cap (160 octets in traces) only get the totality clause. Reads outside the buffer that do not panic and unsafe blocks are not judged. Four open known findings: canonical_name u16 overflow at ANCOUNT=0xFFFF, Label::iter_slice self-pointer hang and pointer-loop unbounded iteration, XFR interpreter unreachable!().",
     "technique": "TLA+ specs (Wire.tla, MsgReader.tla) + TLC exhaustive over enumerated messages and call orders; spec->impl case replay; impl->spec trace validation",
     "design_ref": "DESIGN.md §4 C01",
 }
@@ -208,10 +208,67 @@ def _vacuity_pairs(path):
         raise vlib.ToolError("vacuity: enumerated pairs never reach %s" % missing)
 
 
+def _vacuity_query(path):
+    """The enumerated (bitmap value, queried types) must reach every window
+    length, several windows, both record types, the malformed bitmaps, and a
+    queried block in which the window ends before the block does (the types
+    just past the last octet are then among the arguments)."""
+    seen = set()
+    with open(path) as f:
+        for line in f:
+            c = json.loads(line)
+            e, i = c["exp"], c["in"]
+            seen.add("rt:%d" % i["rt"])
+            seen.add("parse:" + e["parse"])
+            if e["parse"] != "ok":
+                continue
+            m = i["m"]
+            # the bitmap's windows, read off the wire
+            rd = m[23:]
+            bm = rd[3:] if i["rt"] == 47 else rd[5 + rd[4] + 1 + rd[5 + rd[4]]:]
+            k, nw = 0, 0
+            while k < len(bm):
+                seen.add("winlen:%d" % bm[k + 1])
+                if bm[k + 1] < 32 and bm[k] in i["blocks"]:
+                    seen.add("queried-past-window-end")
+                k += 2 + bm[k + 1]
+                nw += 1
+            seen.add("windows:%d" % nw)
+            if any(b * 256 > t or t > b * 256 + 255 for b in i["blocks"][:1] for t in e["contains"][:1]):
+                seen.add("absent-block-first")
+            if e["empty"]:
+                seen.add("empty")
+            if "hasheq" in e:
+                seen.add("hasheq:%s" % sorted(set(e["hasheq"])))
+    need = {"rt:47", "rt:50", "parse:ok", "parse:err", "windows:0", "windows:1", "windows:2", "windows:3",
+            "queried-past-window-end", "empty", "hasheq:[False, True]"} | {"winlen:%d" % n for n in range(1, 33)}
+    missing = sorted(need - seen)
+    if missing:
+        raise vlib.ToolError("vacuity: enumerated query cases never reach %s" % missing)
+
+
 def run(ctx):
     thorough = ctx.tier == "thorough"
     sfx = "_thorough" if thorough else ""
     ctx.build("replay_wire", "record_wire")
+
+    # 1c/2c. queries with an argument on parsed record data (WireQuery.tla):
+    # one TLC run decides the laws (declarative membership = the octet walk,
+    # iteration = the members, nothing past a window's end) over every
+    # enumerated (type bitmap value x queried type) and emits the cases
+    qcases = os.path.join(ctx.work, "cases-query.ndjson")
+    mcq = ctx.tlc("MC_WireQuery", "MC_WireQuery" + sfx, workers=4, label="mc-gen-query", coverage=False,
+                  cases_to=qcases, count=False)
+    ctx.require_ok(mcq, "MC_WireQuery")
+    ctx.coverage_actions["MC_WireQuery:Phase1,Phase2"] = (mcq.distinct, mcq.generated)
+    if mcq.ncases < 1000:
+        raise vlib.ToolError("query generator produced too few cases (%d)" % mcq.ncases)
+    _vacuity_query(qcases)
+    qhead = os.path.join(ctx.work, "head-query.ndjson")
+    _head(qcases, qhead, 40)
+    rc, out, err, _ = ctx.run_bin("replay_wire", ["query", "--selftest-perturb"], stdin_path=qhead)
+    ctx.selftest("perturbed expectation is reported by replay_wire query", "FAIL " in out)
+    ctx.replay_cases("replay_wire", qcases, args=["query"], label="wire-query")
 
     # 1. the specifications satisfy their laws
     mc = ctx.tlc("MC_Wire", "MC_Wire" + sfx, workers=8, label="mc-wire", coverage=False)
